@@ -1,6 +1,7 @@
 package checks
 
 import (
+	"fmt"
 	"time"
 
 	"verif/internal/chain"
@@ -25,6 +26,37 @@ func baseCfg() chain.Config {
 	}
 }
 
+// cfg3equal: three validators with equal stakes, MaxValidators = 2 (cut-off inside a tie), k3 is a
+// fourth candidate.
+func cfg3equal() chain.Config {
+	c := baseCfg()
+	c.Vals = []chain.GenVal{{Key: 0, Stake: 2 * min}, {Key: 1, Stake: 2 * min}, {Key: 2, Stake: 2 * min}}
+	p := *c.Pos
+	p.MaxValidators = 2
+	c.Pos = &p
+	return c
+}
+
+// cfg4ordered: four validators with strictly ordered stakes (one just below a power boundary),
+// MaxValidators = 3.
+func cfg4ordered() chain.Config {
+	c := baseCfg()
+	c.Vals = []chain.GenVal{{Key: 0, Stake: 2 * min}, {Key: 1, Stake: 3*min - 1}, {Key: 2, Stake: 4 * min}, {Key: 3, Stake: 5 * min}}
+	c.Accs = append(c.Accs, chain.GenAcc{Key: 5, Balance: 9 * min})
+	p := *c.Pos
+	p.MaxValidators = 3
+	c.Pos = &p
+	return c
+}
+
+func cfgMax1() chain.Config {
+	c := baseCfg()
+	p := *c.Pos
+	p.MaxValidators = 1
+	c.Pos = &p
+	return c
+}
+
 func txB(label string, t chain.TxSpec) Choice {
 	return Choice{Label: label, Block: chain.Block{Events: []chain.Event{{Kind: "tx", Tx: &t}}}}
 }
@@ -33,7 +65,13 @@ func evB(label string, e chain.Event) Choice {
 	return Choice{Label: label, Block: chain.Block{Events: []chain.Event{e}}}
 }
 
-// stakingAlphabet is the union alphabet of the staking-state explorers.
+func multiB(label string, evs ...chain.Event) Choice {
+	return Choice{Label: label, Block: chain.Block{Events: evs}}
+}
+
+func txE(t chain.TxSpec) chain.Event { return chain.Event{Kind: "tx", Tx: &t} }
+
+// stakingAlphabet is the core alphabet of the staking-state explorers (one event per block).
 func stakingAlphabet() []Choice {
 	return []Choice{
 		txB("stake(k2,min)", chain.TxSpec{Msg: "stake", From: 2, Amount: min}),
@@ -60,20 +98,301 @@ func stakingAlphabet() []Choice {
 	}
 }
 
+// extraAlphabet: unusual inputs and multi-event blocks (the things that need something specific).
+func extraAlphabet() []Choice {
+	return []Choice{
+		txB("send(k3->k3,5) self", chain.TxSpec{Msg: "send", From: 3, To: 3, Amount: 5}),
+		txB("send(k3->k9,all-fee)", chain.TxSpec{Msg: "send", From: 3, To: 9, Amount: 5*min - 10000}),
+		txB("send(k3->k2,balance+1)", chain.TxSpec{Msg: "send", From: 3, To: 2, Amount: 5*min + 1}),
+		txB("stake(k3,min)", chain.TxSpec{Msg: "stake", From: 3, Amount: min}),
+		txB("unstake(k1)", chain.TxSpec{Msg: "unstake", From: 1}),
+		txB("dao_transfer(k4->dao?,3)", chain.TxSpec{Msg: "dao_transfer", From: 4, To: 3, Amount: 3}),
+		txB("dao_burn(k4,3)", chain.TxSpec{Msg: "dao_burn", From: 4, Amount: 3}),
+		evB("burn(k0,1.5)", chain.Event{Kind: "burn", Who: 0, Sev: "1.5"}),
+		multiB("[burn(k0,0.6),burn(k0,0.6)]", chain.Event{Kind: "burn", Who: 0, Sev: "0.6"}, chain.Event{Kind: "burn", Who: 0, Sev: "0.6"}),
+		multiB("[award(k3,10),award(k3,25)]", chain.Event{Kind: "award", Who: 3, Amount: 10}, chain.Event{Kind: "award", Who: 3, Amount: 25}),
+		multiB("[award(k9,4),award(k3,6)]", chain.Event{Kind: "award", Who: 9, Amount: 4}, chain.Event{Kind: "award", Who: 3, Amount: 6}),
+		multiB("[unstake(k0),unstake(k1)]", txE(chain.TxSpec{Msg: "unstake", From: 0}), txE(chain.TxSpec{Msg: "unstake", From: 1})),
+		multiB("[send,send] 2 fees", txE(chain.TxSpec{Msg: "send", From: 3, To: 2, Amount: 1}), txE(chain.TxSpec{Msg: "send", From: 4, To: 2, Amount: 1})),
+		{Label: "miss(k0,k1)", Block: chain.Block{Missed: []int{0, 1}}},
+		{Label: "evidence(k0,power=10)", Block: chain.Block{Evidence: []chain.Evidence{{Val: 0, HeightAgo: 1, Age: time.Second, Power: 10}}}},
+		{Label: "evidence(k0,old)", Block: chain.Block{Evidence: []chain.Evidence{{Val: 0, HeightAgo: 1, Age: 121 * time.Second}}}},
+		{Label: "evidence(k0)+evidence(k1)", Block: chain.Block{Evidence: []chain.Evidence{{Val: 0, HeightAgo: 1, Age: time.Second}, {Val: 1, HeightAgo: 1, Age: time.Second}}}},
+		{Label: "prop=unknown", Block: chain.Block{Proposer: -1}},
+		{Label: "dt=3s-1ns", Block: chain.Block{DT: 3*time.Second - time.Nanosecond}},
+		{Label: "dt=2s", Block: chain.Block{DT: 2 * time.Second}},
+	}
+}
+
+func richAlphabet() []Choice { return append(stakingAlphabet(), extraAlphabet()...) }
+
+// setAlphabet: events that change who is in the validator set (C05), for 3-4 validators.
+func setAlphabet() []Choice {
+	return []Choice{
+		txB("stake(k3,2min)", chain.TxSpec{Msg: "stake", From: 3, Amount: 2 * min}),
+		txB("stake(k3,3min)", chain.TxSpec{Msg: "stake", From: 3, Amount: 3 * min}),
+		txB("stake(k5,4min)", chain.TxSpec{Msg: "stake", From: 5, Amount: 4 * min}),
+		txB("unstake(k0)", chain.TxSpec{Msg: "unstake", From: 0}),
+		txB("unstake(k1)", chain.TxSpec{Msg: "unstake", From: 1}),
+		txB("unstake(k2)", chain.TxSpec{Msg: "unstake", From: 2}),
+		txB("unjail(k0)", chain.TxSpec{Msg: "unjail", From: 0}),
+		txB("unjail(k1)", chain.TxSpec{Msg: "unjail", From: 1}),
+		multiB("[unstake(k0),unstake(k1)]", txE(chain.TxSpec{Msg: "unstake", From: 0}), txE(chain.TxSpec{Msg: "unstake", From: 1})),
+		multiB("[unstake(k1),stake(k3,3min)]", txE(chain.TxSpec{Msg: "unstake", From: 1}), txE(chain.TxSpec{Msg: "stake", From: 3, Amount: 3 * min})),
+		{Label: "miss(k0)", Block: chain.Block{Missed: []int{0}}},
+		{Label: "miss(k1)", Block: chain.Block{Missed: []int{1}}},
+		{Label: "miss(k0,k1)", Block: chain.Block{Missed: []int{0, 1}}},
+		{Label: "evidence(k0)", Block: chain.Block{Evidence: []chain.Evidence{{Val: 0, HeightAgo: 1, Age: time.Second}}}},
+		{Label: "evidence(k2)", Block: chain.Block{Evidence: []chain.Evidence{{Val: 2, HeightAgo: 1, Age: time.Second}}}},
+		evB("burn(k0,0.5)", chain.Event{Kind: "burn", Who: 0, Sev: "0.5"}),
+		evB("burn(k1,0.4)", chain.Event{Kind: "burn", Who: 1, Sev: "0.4"}),
+		evB("burn(k2,0.3)", chain.Event{Kind: "burn", Who: 2, Sev: "0.3"}),
+		multiB("[burn(k0,0.5),burn(k1,0.5)]", chain.Event{Kind: "burn", Who: 0, Sev: "0.5"}, chain.Event{Kind: "burn", Who: 1, Sev: "0.5"}),
+		{Label: "dt=3s", Block: chain.Block{DT: 3 * time.Second}},
+		txB("change(MaxValidators=1)", chain.TxSpec{Msg: "change_param", From: 4, Key: "pos/MaxValidators", Val: `"1"`}),
+		txB("change(MaxValidators=3)", chain.TxSpec{Msg: "change_param", From: 4, Key: "pos/MaxValidators", Val: `"3"`}),
+	}
+}
+
+// rewardAlphabet (C10): fee-paying blocks, proposers, awards.
+func rewardAlphabet() []Choice {
+	return []Choice{
+		txB("send (1 fee)", chain.TxSpec{Msg: "send", From: 3, To: 2, Amount: 1}),
+		multiB("[send,send] (2 fees)", txE(chain.TxSpec{Msg: "send", From: 3, To: 2, Amount: 1}), txE(chain.TxSpec{Msg: "send", From: 4, To: 2, Amount: 1})),
+		txB("send overdraft (fee, handler fails)", chain.TxSpec{Msg: "send", From: 3, To: 2, Amount: 100 * min}),
+		txB("send fee+5 (overpaid)", chain.TxSpec{Msg: "send", From: 3, To: 2, Amount: 1, Fee: 10005}),
+		Choice{Label: "prop=k1 + send", Block: chain.Block{Proposer: 2, Events: []chain.Event{txE(chain.TxSpec{Msg: "send", From: 3, To: 2, Amount: 1})}}},
+		Choice{Label: "prop=unknown + send", Block: chain.Block{Proposer: -1, Events: []chain.Event{txE(chain.TxSpec{Msg: "send", From: 3, To: 2, Amount: 1})}}},
+		Choice{Label: "prop=k2(not a validator) + send", Block: chain.Block{Proposer: 3, Events: []chain.Event{txE(chain.TxSpec{Msg: "send", From: 3, To: 2, Amount: 1})}}},
+		{Label: "prop=k1", Block: chain.Block{Proposer: 2}},
+		{Label: "prop=unknown", Block: chain.Block{Proposer: -1}},
+		txB("unstake(k0) (proposer leaves)", chain.TxSpec{Msg: "unstake", From: 0}),
+		{Label: "dt=3s", Block: chain.Block{DT: 3 * time.Second}},
+		{Label: "evidence(k0)", Block: chain.Block{Evidence: []chain.Evidence{{Val: 0, HeightAgo: 1, Age: time.Second}}}},
+		evB("award(k3,100)", chain.Event{Kind: "award", Who: 3, Amount: 100}),
+		multiB("[award(k3,10),award(k3,25)]", chain.Event{Kind: "award", Who: 3, Amount: 10}, chain.Event{Kind: "award", Who: 3, Amount: 25}),
+		multiB("[award(k3,10),award(k2,25)]", chain.Event{Kind: "award", Who: 3, Amount: 10}, chain.Event{Kind: "award", Who: 2, Amount: 25}),
+		evB("award(k9 fresh,4)", chain.Event{Kind: "award", Who: 9, Amount: 4}),
+		evB("award(k0 validator,8)", chain.Event{Kind: "award", Who: 0, Amount: 8}),
+		multiB("[award(k3,5),send]", chain.Event{Kind: "award", Who: 3, Amount: 5}, txE(chain.TxSpec{Msg: "send", From: 3, To: 2, Amount: 1})),
+	}
+}
+
+// slashAlphabet (C07): every slashing route on every target class, several in one block.
+func slashAlphabet() []Choice {
+	var cs []Choice
+	for _, sev := range []string{"0", "0.000000000000000001", "0.000001", "0.05", "0.333333333333333333", "0.5", "0.999999999999999999", "1", "1.5"} {
+		cs = append(cs, evB("burn(k0,"+sev+")", chain.Event{Kind: "burn", Who: 0, Sev: sev}))
+	}
+	cs = append(cs,
+		evB("burn(k2 not a validator,0.5)", chain.Event{Kind: "burn", Who: 2, Sev: "0.5"}),
+		multiB("[burn(k0,0.6),burn(k0,0.6)]", chain.Event{Kind: "burn", Who: 0, Sev: "0.6"}, chain.Event{Kind: "burn", Who: 0, Sev: "0.6"}),
+		multiB("[burn(k0,0.3),burn(k1,0.3)]", chain.Event{Kind: "burn", Who: 0, Sev: "0.3"}, chain.Event{Kind: "burn", Who: 1, Sev: "0.3"}),
+	)
+	for _, pw := range []int64{0, 1, 3, 1000000000} {
+		for _, age := range []time.Duration{time.Second, 120 * time.Second, 120*time.Second + time.Nanosecond, 1200 * time.Second} {
+			cs = append(cs, Choice{Label: fmt.Sprintf("evidence(k0,power=%d,age=%s)", pw, age), Block: chain.Block{Evidence: []chain.Evidence{{Val: 0, HeightAgo: 1, Age: age, Power: pw}}}})
+		}
+	}
+	cs = append(cs,
+		Choice{Label: "evidence(k0,future height)", Block: chain.Block{Evidence: []chain.Evidence{{Val: 0, HeightAgo: -5, Age: time.Second}}}},
+		Choice{Label: "evidence(k0,height 0)", Block: chain.Block{Evidence: []chain.Evidence{{Val: 0, HeightAgo: 100, Age: time.Second}}}},
+		Choice{Label: "evidence(k0)+evidence(k0) twice", Block: chain.Block{Evidence: []chain.Evidence{{Val: 0, HeightAgo: 1, Age: time.Second}, {Val: 0, HeightAgo: 2, Age: 2 * time.Second}}}},
+		Choice{Label: "evidence(k0)+miss(k0)", Block: chain.Block{Missed: []int{0}, Evidence: []chain.Evidence{{Val: 0, HeightAgo: 1, Age: time.Second}}}},
+		Choice{Label: "miss(k0)", Block: chain.Block{Missed: []int{0}}},
+		Choice{Label: "miss(k0)+burn", Block: chain.Block{Missed: []int{0}, Events: []chain.Event{{Kind: "burn", Who: 0, Sev: "0.4"}}}},
+		txB("unstake(k0)", chain.TxSpec{Msg: "unstake", From: 0}),
+		txB("stake(k2,min)", chain.TxSpec{Msg: "stake", From: 2, Amount: min}),
+		evB("burn(k2,0.5)", chain.Event{Kind: "burn", Who: 2, Sev: "0.5"}),
+		Choice{Label: "evidence(k2)", Block: chain.Block{Evidence: []chain.Evidence{{Val: 2, HeightAgo: 1, Age: time.Second}}}},
+		Choice{Label: "dt=3s", Block: chain.Block{DT: 3 * time.Second}},
+	)
+	return cs
+}
+
+// c07cfgs: stakes around the minimum and large, with slash fractions that truncate.
+func c07cfgs() []chain.Config {
+	var out []chain.Config
+	for _, st := range []int64{min, min + 1, 2*min - 1, 3*min + 333333, 1000000 * min} {
+		c := baseCfg()
+		c.Vals = []chain.GenVal{{Key: 0, Stake: st}, {Key: 1, Stake: 3 * min}}
+		p := *c.Pos
+		p.SlashDoubleStr, p.SlashDowntimeStr = "0.333333333333333333", "0.010000000000000001"
+		c.Pos = &p
+		out = append(out, c)
+	}
+	return out
+}
+
+// jailAlphabet (C09): jailing causes, unjail attempts at all times, followed by further events.
+func jailAlphabet() []Choice {
+	return []Choice{
+		{Label: "miss(k0)", Block: chain.Block{Missed: []int{0}}},
+		{Label: "miss(k0)+dt=2s", Block: chain.Block{Missed: []int{0}, DT: 2 * time.Second}},
+		{Label: "evidence(k0)", Block: chain.Block{Evidence: []chain.Evidence{{Val: 0, HeightAgo: 1, Age: time.Second}}}},
+		{Label: "evidence(k0)+miss(k0)", Block: chain.Block{Missed: []int{0}, Evidence: []chain.Evidence{{Val: 0, HeightAgo: 1, Age: time.Second}}}},
+		txB("unjail(k0)", chain.TxSpec{Msg: "unjail", From: 0}),
+		Choice{Label: "dt=2s-1ns unjail(k0)", Block: chain.Block{DT: 2*time.Second - time.Nanosecond, Events: []chain.Event{txE(chain.TxSpec{Msg: "unjail", From: 0})}}},
+		Choice{Label: "dt=2s unjail(k0)", Block: chain.Block{DT: 2 * time.Second, Events: []chain.Event{txE(chain.TxSpec{Msg: "unjail", From: 0})}}},
+		Choice{Label: "dt=3s unjail(k0)", Block: chain.Block{DT: 3 * time.Second, Events: []chain.Event{txE(chain.TxSpec{Msg: "unjail", From: 0})}}},
+		txB("unjail(k1) never jailed", chain.TxSpec{Msg: "unjail", From: 1}),
+		txB("unjail(k3) unknown", chain.TxSpec{Msg: "unjail", From: 3}),
+		txB("unstake(k0)", chain.TxSpec{Msg: "unstake", From: 0}),
+		txB("stake(k0,min) restake", chain.TxSpec{Msg: "stake", From: 0, Amount: min}),
+		evB("burn(k0,0.6)", chain.Event{Kind: "burn", Who: 0, Sev: "0.6"}),
+		{Label: "dt=3s", Block: chain.Block{DT: 3 * time.Second}},
+		{Label: "dt=2s", Block: chain.Block{DT: 2 * time.Second}},
+		txB("change(MaxValidators=1)", chain.TxSpec{Msg: "change_param", From: 4, Key: "pos/MaxValidators", Val: `"1"`}),
+	}
+}
+
+func c09cfgs() []chain.Config {
+	var out []chain.Config
+	for _, st := range []int64{min, 2 * min, 100 * min} {
+		c := baseCfg()
+		c.Vals = []chain.GenVal{{Key: 0, Stake: st}, {Key: 1, Stake: 3 * min}}
+		out = append(out, c)
+	}
+	return out
+}
+
+// lifecycleAlphabet (C06): one subject (k2 candidate, k0 staked) and precise time steps.
+func lifecycleAlphabet() []Choice {
+	return []Choice{
+		txB("stake(k2,min-1)", chain.TxSpec{Msg: "stake", From: 2, Amount: min - 1}),
+		txB("stake(k2,min)", chain.TxSpec{Msg: "stake", From: 2, Amount: min}),
+		txB("stake(k2,2min)", chain.TxSpec{Msg: "stake", From: 2, Amount: 2 * min}),
+		txB("stake(k2,balance+1)", chain.TxSpec{Msg: "stake", From: 2, Amount: 5*min + 1}),
+		txB("unstake(k2)", chain.TxSpec{Msg: "unstake", From: 2}),
+		txB("unstake(k0)", chain.TxSpec{Msg: "unstake", From: 0}),
+		txB("unjail(k0)", chain.TxSpec{Msg: "unjail", From: 0}),
+		txB("stake(k0,min) while staked/unstaking", chain.TxSpec{Msg: "stake", From: 0, Amount: min}),
+		evB("burn(k0,0.000001)", chain.Event{Kind: "burn", Who: 0, Sev: "0.000001"}),
+		evB("burn(k0,1)", chain.Event{Kind: "burn", Who: 0, Sev: "1"}),
+		evB("burn(k2,0.9)", chain.Event{Kind: "burn", Who: 2, Sev: "0.9"}),
+		{Label: "miss(k0)", Block: chain.Block{Missed: []int{0}}},
+		{Label: "evidence(k0)", Block: chain.Block{Evidence: []chain.Evidence{{Val: 0, HeightAgo: 1, Age: time.Second}}}},
+		{Label: "evidence(k2)", Block: chain.Block{Evidence: []chain.Evidence{{Val: 2, HeightAgo: 1, Age: time.Second}}}},
+		{Label: "dt=1.5s", Block: chain.Block{DT: 1500 * time.Millisecond}},
+		{Label: "dt=2s-1ns", Block: chain.Block{DT: 2*time.Second - time.Nanosecond}},
+		{Label: "dt=2s", Block: chain.Block{DT: 2 * time.Second}},
+		{Label: "dt=3s", Block: chain.Block{DT: 3 * time.Second}},
+		multiB("[unstake(k0),unstake(k1)] same time", txE(chain.TxSpec{Msg: "unstake", From: 0}), txE(chain.TxSpec{Msg: "unstake", From: 1})),
+		txB("unstake(k1)", chain.TxSpec{Msg: "unstake", From: 1}),
+	}
+}
+
+// windowCfg: W and MinSignedPerWindow for the C08 explorers; k0 staked from genesis or joining later.
+func windowCfg(w int64, num, den int64, stakeK0 int64) chain.Config {
+	c := baseCfg()
+	c.Vals = []chain.GenVal{{Key: 0, Stake: stakeK0}, {Key: 1, Stake: 3 * min}}
+	p := *c.Pos
+	p.Window, p.MinSignedNum, p.MinSignedDen = w, num, den
+	c.Pos = &p
+	return c
+}
+
+func posScenarios(id, tier string) []Scenario {
+	th := tier == "thorough"
+	kd := func(qk, qd, tk, td int) (int, int) {
+		if th {
+			return tk, td
+		}
+		return qk, qd
+	}
+	switch id {
+	case "C02", "C04":
+		k, d := kd(2, 4, 3, 4)
+		k2, d2 := kd(2, 3, 3, 4)
+		return []Scenario{
+			{Name: "2val-rich", Cfg: baseCfg(), Alphabet: richAlphabet(), K: k, D: d, Tail: 1},
+			{Name: "3val-equal-max2", Cfg: cfg3equal(), Alphabet: append(stakingAlphabet(), setAlphabet()...), K: k2, D: d2, Tail: 1},
+		}
+	case "C05":
+		k, d := kd(2, 4, 3, 4)
+		k2, d2 := kd(2, 3, 3, 4)
+		return []Scenario{
+			{Name: "2val", Cfg: baseCfg(), Alphabet: richAlphabet(), K: k2, D: d2, Tail: 1},
+			{Name: "3val-equal-max2", Cfg: cfg3equal(), Alphabet: setAlphabet(), K: k, D: d, Tail: 1},
+			{Name: "4val-ordered-max3", Cfg: cfg4ordered(), Alphabet: setAlphabet(), K: k, D: d, Tail: 1},
+			{Name: "2val-max1", Cfg: cfgMax1(), Alphabet: setAlphabet(), K: k2, D: d2, Tail: 1},
+		}
+	case "C06":
+		k, d := kd(3, 4, 4, 5)
+		k2, d2 := kd(2, 4, 3, 4)
+		return []Scenario{
+			{Name: "lifecycle", Cfg: baseCfg(), Alphabet: lifecycleAlphabet(), K: k, D: d, Tail: 1},
+			{Name: "2val-rich", Cfg: baseCfg(), Alphabet: richAlphabet(), K: k2, D: d2, Tail: 1},
+			{Name: "3val-equal-max2", Cfg: cfg3equal(), Alphabet: setAlphabet(), K: k2, D: d2, Tail: 1},
+		}
+	case "C07":
+		k, d := kd(2, 3, 3, 3)
+		var scs []Scenario
+		for i, c := range c07cfgs() {
+			kk := k
+			if i > 1 && !th {
+				kk = 1
+			}
+			scs = append(scs, Scenario{Name: fmt.Sprintf("slash-stake=%d", c.Vals[0].Stake), Cfg: c, Alphabet: slashAlphabet(), K: kk, D: d, Tail: 1})
+		}
+		return scs
+	case "C08":
+		var scs []Scenario
+		miss := []Choice{{Label: "M", Block: chain.Block{Missed: []int{0}}}}
+		// every signed/missed sequence of length 2W+4 for W = 1..5 (k1 always signs)
+		maxW := int64(4)
+		if th {
+			maxW = 5
+		}
+		for w := int64(1); w <= maxW; w++ {
+			for _, frac := range [][2]int64{{1, 2}, {0, 1}, {1, 4}, {3, 4}, {1, 1}} {
+				if !th && w >= 4 && !(frac[0] == 1 && frac[1] == 2) {
+					continue
+				}
+				d := int(2*w + 4)
+				scs = append(scs, Scenario{Name: fmt.Sprintf("votes-W=%d-min=%d/%d", w, frac[0], frac[1]), Cfg: windowCfg(w, frac[0], frac[1], 100*min), Alphabet: miss, K: d, D: d})
+			}
+		}
+		// a stake of exactly the minimum: the first downtime slash forces the unstake
+		scs = append(scs, Scenario{Name: "votes-W=2-forced-unstake", Cfg: windowCfg(2, 1, 2, min), Alphabet: miss, K: 8, D: 8})
+		// interleavings with unjail / re-stake / begin-unstake / late joiner
+		inter := []Choice{
+			{Label: "M", Block: chain.Block{Missed: []int{0}}},
+			{Label: "M+dt2s", Block: chain.Block{Missed: []int{0}, DT: 2 * time.Second}},
+			Choice{Label: "dt2s+unjail(k0)", Block: chain.Block{DT: 2 * time.Second, Events: []chain.Event{txE(chain.TxSpec{Msg: "unjail", From: 0})}}},
+			txB("unjail(k0) early", chain.TxSpec{Msg: "unjail", From: 0}),
+			txB("unstake(k0)", chain.TxSpec{Msg: "unstake", From: 0}),
+			txB("stake(k2,2min) joins", chain.TxSpec{Msg: "stake", From: 2, Amount: 2 * min}),
+			{Label: "M(k2)", Block: chain.Block{Missed: []int{2}}},
+			{Label: "M(k0,k2)", Block: chain.Block{Missed: []int{0, 2}}},
+			txB("stake(k0,min) restake", chain.TxSpec{Msg: "stake", From: 0, Amount: min}),
+		}
+		k, d := kd(3, 5, 5, 7)
+		scs = append(scs, Scenario{Name: "interleaved-W=2", Cfg: windowCfg(2, 1, 2, 2*min), Alphabet: inter, K: k, D: d, Tail: 1})
+		scs = append(scs, Scenario{Name: "interleaved-W=3", Cfg: windowCfg(3, 1, 2, 2*min), Alphabet: inter, K: k, D: d, Tail: 1})
+		return scs
+	case "C09":
+		k, d := kd(3, 4, 4, 5)
+		var scs []Scenario
+		for _, c := range c09cfgs() {
+			scs = append(scs, Scenario{Name: fmt.Sprintf("jail-stake=%d", c.Vals[0].Stake), Cfg: c, Alphabet: jailAlphabet(), K: k, D: d, Tail: 1})
+		}
+		return scs
+	case "C10":
+		k, d := kd(3, 4, 4, 4)
+		return []Scenario{{Name: "rewards", Cfg: baseCfg(), Alphabet: rewardAlphabet(), K: k, D: d, Tail: 1}}
+	}
+	return nil
+}
+
 func init() {
 	for _, id := range []string{"C02", "C04", "C05", "C06", "C07", "C08", "C09", "C10"} {
 		id := id
 		registerHist(&HistProp{
-			ID: id,
-			Scenarios: func(tier string) []Scenario {
-				k, d := 2, 4
-				if tier == "thorough" {
-					k, d = 3, 5
-				}
-				return []Scenario{{Name: "staking-2val", Cfg: baseCfg(), Alphabet: stakingAlphabet(), K: k, D: d, Tail: 1}}
-			},
-			Rule:   "all histories of D blocks (+1 trailing default block) with at most K deviating blocks drawn from the staking alphabet (one event per deviating block); non-trivial = at least one transaction succeeded or the validator set changed",
-			QuickS: 240, ThoroughS: 1500,
+			ID:        id,
+			Scenarios: func(tier string) []Scenario { return posScenarios(id, tier) },
+			Rule:      "for each scenario (genesis configuration + alphabet of deviating blocks, listed under scenarios): all histories of D blocks (+ trailing default blocks) with at most K deviating blocks (default block = everybody signs, +1 s, first validator proposes, no event); enumerated in order of increasing deviations; non-trivial = at least one transaction succeeded or the validator set changed",
+			QuickS:    280, ThoroughS: 1700,
 		})
 	}
 }
